@@ -343,7 +343,7 @@ Section IntFloat.
         + cbn [int_shape]. change ((45 =? 43) || (45 =? 45)) with true. cbv iota.
           apply all_digits_nl_digits. assumption.
         + change (45 =? 45) with true. cbv iota.
-          destruct (dec (Z.abs_N z)) eqn:E; [congruence |]. rewrite <- E, A. f_equal. lia.
+          destruct (dec (Z.abs_N z)) eqn:E; [congruence |]. rewrite A. f_equal. lia.
       - destruct (dec (Z.abs_N z)) as [| c r] eqn:E; [congruence |].
         assert (Hc : isdigit c = true) by (inversion B; assumption).
         assert (N1 : (c =? 43) = false) by (unfold isdigit in Hc; lia).
